@@ -44,6 +44,7 @@ type E struct {
 	opts      []ucfg.Option // PathSep, VarExp, Env..., Resolve...
 	optsNoSep []ucfg.Option // the same without PathSep
 	baseOpts  []ucfg.Option // PathSep, VarExp only (used for building)
+	sep       string        // the path separator of this run: names in expressions, read paths and resolver names are spelled with it
 
 	// model evaluation state
 	active       map[string]bool
@@ -229,14 +230,29 @@ func valToGo(v *Val) interface{} {
 	return nil
 }
 
-func settingToGo(s *setting) interface{} {
+func (e *E) settingToGo(s *setting) interface{} {
 	if s.expr != nil {
-		return Render(s.expr)
+		return RenderSep(s.expr, e.sep)
 	}
 	return valToGo(s.lit)
 }
 
-func layerToGo(l map[string]*setting) map[string]interface{} {
+// sp spells a (dotted) model path with the separator of this run.
+func (e *E) sp(path string) string { return strings.ReplaceAll(path, ".", e.sep) }
+
+// unsp reads a name spelled with the separator of this run; under another separator a name with
+// a "." in it is one segment, which no layer knows.
+func (e *E) unsp(name string) (string, bool) {
+	if e.sep == "." {
+		return name, true
+	}
+	if strings.Contains(name, ".") {
+		return name, false
+	}
+	return strings.ReplaceAll(name, e.sep, "."), true
+}
+
+func (e *E) layerToGo(l map[string]*setting) map[string]interface{} {
 	m := map[string]interface{}{}
 	ps := make([]string, 0, len(l))
 	for p := range l {
@@ -251,9 +267,9 @@ func layerToGo(l map[string]*setting) map[string]interface{} {
 				sub = map[string]interface{}{}
 				m[p[:i]] = sub
 			}
-			sub[p[i+1:]] = settingToGo(s)
+			sub[p[i+1:]] = e.settingToGo(s)
 		} else {
-			m[p] = settingToGo(s)
+			m[p] = e.settingToGo(s)
 		}
 	}
 	// a sub-map whose keys are all indices is a list
@@ -280,8 +296,12 @@ func layerToGo(l map[string]*setting) map[string]interface{} {
 }
 
 func (e *E) mkResolver(i int) func(string) (string, parse.Config, error) {
-	return func(name string) (string, parse.Config, error) {
+	return func(asked string) (string, parse.Config, error) {
 		r := e.res[i]
+		name, spelled := e.unsp(asked)
+		if !spelled {
+			return "", parse.DefaultConfig, ucfg.ErrMissing
+		}
 		if r.down[name] {
 			e.R.Fault("resolver outage during a read")
 			if r.anyErr {
@@ -304,7 +324,15 @@ func (e *E) mkResolver(i int) func(string) (string, parse.Config, error) {
 // Setup draws the initial world.
 func (e *E) Setup() {
 	t := e.R.T
-	e.baseOpts = []ucfg.Option{ucfg.PathSep("."), ucfg.VarExp}
+	if e.sep == "" {
+		// the separator is the caller's choice: the names a resolver is asked for are spelled as the
+		// expression spells them
+		e.sep = []string{".", "/", "#"}[t.Weighted([]int{5, 2, 1}, "path-separator")] // (":" belongs to the operators)
+		if e.sep != "." {
+			e.R.Probe("varexp: path separator other than the dot")
+		}
+	}
+	e.baseOpts = []ucfg.Option{ucfg.PathSep(e.sep), ucfg.VarExp}
 	e.root = map[string]*setting{}
 	maxDepth := 1 + t.Choose(3, "expr-depth")
 	nset := 2 + t.Choose(5, "n-settings")
@@ -331,7 +359,7 @@ func (e *E) Setup() {
 	}
 	// the name used by nested references: k names another setting
 	if t.Bool("bind-k") {
-		e.root["k"] = &setting{lit: &Val{K: VStr, S: allNames[t.Choose(len(allNames)-2, "k-target")]}}
+		e.root["k"] = &setting{lit: &Val{K: VStr, S: e.sp(allNames[t.Choose(len(allNames)-2, "k-target")])}}
 	}
 	nenv := t.Choose(3, "n-env")
 	if e.R.Avoid["O17"] {
@@ -462,14 +490,14 @@ func (e *E) known(name string) bool {
 
 func (e *E) build() {
 	var err error
-	e.R.MustComplete("NewFrom", func() { e.rootCfg, err = ucfg.NewFrom(layerToGo(e.root), e.baseOpts...) })
+	e.R.MustComplete("NewFrom", func() { e.rootCfg, err = ucfg.NewFrom(e.layerToGo(e.root), e.baseOpts...) })
 	if err != nil {
-		e.R.Fail("create", "NewFrom", "NewFrom failed on a config with well-formed expressions: %v\n%v", err, layerToGo(e.root))
+		e.R.Fail("create", "NewFrom", "NewFrom failed on a config with well-formed expressions: %v\n%v", err, e.layerToGo(e.root))
 	}
 	e.opts = append([]ucfg.Option{}, e.baseOpts...)
 	e.envCfgs = nil
 	for _, l := range e.envs {
-		c, err := ucfg.NewFrom(layerToGo(l), ucfg.PathSep("."))
+		c, err := ucfg.NewFrom(e.layerToGo(l), ucfg.PathSep("."))
 		if err != nil {
 			panic("harness: env config: " + err.Error())
 		}
@@ -577,7 +605,10 @@ func (e *E) evalName(n Name) Outcome {
 		if txt == "" {
 			return Outcome{E: EUnresolved}
 		}
-		path = txt
+		var spelled bool
+		if path, spelled = e.unsp(txt); !spelled {
+			return Outcome{E: EUnresolved} // one segment with a "." in it: no layer knows such a name
+		}
 	}
 	if throughName(path) {
 		// a path through another setting (an expression, a primitive taken as a one-entry list,
@@ -699,7 +730,10 @@ func (e *E) exists(n Name) (bool, EKind) {
 		if !ok || txt == "" {
 			return false, EOK
 		}
-		path = txt
+		var spelled bool
+		if path, spelled = e.unsp(txt); !spelled {
+			return false, EOK
+		}
 	}
 	if throughName(path) {
 		return false, EAny
@@ -1083,7 +1117,7 @@ func (e *E) Read() {
 	case 0: // String
 		var s string
 		var err error
-		e.R.MustComplete("String", func() { s, err = cfg.String(name, -1, ro...) })
+		e.R.MustComplete("String", func() { s, err = cfg.String(e.sp(name), -1, ro...) })
 		e.R.Tracef("String(%q)%s = %q, %v   [model: %s]", name, via, s, err, describeOutcome(o))
 		if o.E == EOK {
 			txt, ok := o.V.Text()
@@ -1107,7 +1141,7 @@ func (e *E) Read() {
 			var c *ucfg.Config
 			var err error
 			var got string
-			e.R.MustComplete("Child", func() { c, err = cfg.Child(name, -1, e.opts...) })
+			e.R.MustComplete("Child", func() { c, err = cfg.Child(e.sp(name), -1, e.opts...) })
 			if err == nil {
 				got, err = e.unpackCfg(c)
 			}
@@ -1124,27 +1158,27 @@ func (e *E) Read() {
 			case VInt:
 				op = "Int"
 				var i int64
-				e.R.MustComplete(op, func() { i, err = cfg.Int(name, -1, ro...) })
+				e.R.MustComplete(op, func() { i, err = cfg.Int(e.sp(name), -1, ro...) })
 				got = strconv.FormatInt(i, 10)
 			case VBool:
 				op = "Bool"
 				var b bool
-				e.R.MustComplete(op, func() { b, err = cfg.Bool(name, -1, ro...) })
+				e.R.MustComplete(op, func() { b, err = cfg.Bool(e.sp(name), -1, ro...) })
 				got = strconv.FormatBool(b)
 			case VFloat:
 				op = "Float"
 				var f float64
-				e.R.MustComplete(op, func() { f, err = cfg.Float(name, -1, ro...) })
+				e.R.MustComplete(op, func() { f, err = cfg.Float(e.sp(name), -1, ro...) })
 				got = canonOf(f)
 			case VStr:
 				op = "String"
 				var s string
-				e.R.MustComplete(op, func() { s, err = cfg.String(name, -1, ro...) })
+				e.R.MustComplete(op, func() { s, err = cfg.String(e.sp(name), -1, ro...) })
 				got = strconv.Quote(s)
 			default:
 				op = "Child"
 				var c *ucfg.Config
-				e.R.MustComplete(op, func() { c, err = cfg.Child(name, -1, e.opts...) })
+				e.R.MustComplete(op, func() { c, err = cfg.Child(e.sp(name), -1, e.opts...) })
 				if err == nil {
 					got, err = e.unpackCfg(c)
 				}
@@ -1154,7 +1188,7 @@ func (e *E) Read() {
 			e.expect(op, path, o, got, err)
 		} else {
 			var err error
-			e.R.MustComplete("Int", func() { _, err = cfg.Int(name, -1, ro...) })
+			e.R.MustComplete("Int", func() { _, err = cfg.Int(e.sp(name), -1, ro...) })
 			e.R.Tracef("Int(%q)%s = %v   [model: %s]", name, via, err, describeOutcome(o))
 			e.expect("Int", path, o, "?", err)
 		}
@@ -1166,6 +1200,9 @@ func (e *E) Read() {
 		e.R.MustComplete("FlattenedKeys", func() { keys = e.rootCfg.FlattenedKeys(e.opts...) })
 		e.R.MustComplete("CompareConfigs", func() { d = diff.CompareConfigs(e.rootCfg, e.rootCfg, e.opts...) })
 		want, known := e.expectedFlat()
+		for i := range want {
+			want[i] = e.sp(want[i])
+		}
 		e.R.Tracef("FlattenedKeys = %v   [model: %v, comparable: %v]", keys, want, known)
 		e.R.Probe("varexp: FlattenedKeys / CompareConfigs on a config with references")
 		if known {
@@ -1189,7 +1226,7 @@ func (e *E) Read() {
 	case 4: // Has / CountField: must terminate; Has is true for a stored setting
 		var has bool
 		var err error
-		e.R.MustComplete("Has", func() { has, err = cfg.Has(name, -1, ro...) })
+		e.R.MustComplete("Has", func() { has, err = cfg.Has(e.sp(name), -1, ro...) })
 		if err == nil && !has {
 			e.R.Fail("value", "Has", "Has(%q) = false for a stored setting", name)
 		}
@@ -1198,7 +1235,7 @@ func (e *E) Read() {
 			// evaluated is an error here as in every other read (C08: "every read operation")
 			var n int
 			var cerr error
-			e.R.MustComplete("CountField", func() { n, cerr = cfg.CountField(name, ro...) })
+			e.R.MustComplete("CountField", func() { n, cerr = cfg.CountField(e.sp(name), ro...) })
 			e.R.Tracef("CountField(%q)%s = %d, %v   [model: %s]", name, via, n, cerr, describeOutcome(o))
 			if _, typed := cerr.(ucfg.Error); cerr != nil && !typed {
 				e.R.Note("C14", "error-typed/CountField")
@@ -1399,7 +1436,7 @@ func (e *E) Drift() {
 		} else {
 			ns = &setting{lit: e.prim()}
 		}
-		in := layerToGo(map[string]*setting{name: ns})
+		in := e.layerToGo(map[string]*setting{name: ns})
 		var err error
 		if old != nil && old.expr != nil && strings.HasPrefix(name, "l.") {
 			return // (replacing an expression goes through Remove, which would renumber the list)
@@ -1408,7 +1445,7 @@ func (e *E) Drift() {
 			// Merge evaluates the old value to decide whether both sides are containers; what that
 			// does when a reference points into the subtree being merged is outside C02/C08
 			// (DESIGN.md Appendix A), so an expression is replaced by remove + merge.
-			e.R.MustComplete("Remove", func() { _, err = e.rootCfg.Remove(name, -1, e.baseOpts...) })
+			e.R.MustComplete("Remove", func() { _, err = e.rootCfg.Remove(e.sp(name), -1, e.baseOpts...) })
 			if err != nil {
 				e.R.Fail("create", "Remove", "Remove(%q) failed: %v", name, err)
 			}
@@ -1463,7 +1500,7 @@ func (e *E) Drift() {
 			return // (removing a list element renumbers the others: not modelled here, see E1)
 		}
 		var err error
-		e.R.MustComplete("Remove", func() { _, err = e.rootCfg.Remove(name, -1, e.baseOpts...) })
+		e.R.MustComplete("Remove", func() { _, err = e.rootCfg.Remove(e.sp(name), -1, e.baseOpts...) })
 		if err != nil {
 			e.R.Fail("create", "Remove", "Remove(%q) failed: %v", name, err)
 		}
